@@ -33,7 +33,8 @@ TECHNIQUE = ("exhaustive enumeration of command x context templates, of all toke
              "text_convert settings on the real encoder; event-level comparison with a text-level reference converter and a frozen table")
 LEVEL_TEXT = ("exploration, exhaustive inside stated bounds: all 682 table commands x 14 contexts x on/off, every string of <= 3 (quick) / "
               "<= 4 (thorough) tokens over a 19-token alphabet x on/off, every component kind x {default, on, off} and every per-cell "
-              "text_convert matrix of a 2x2 body / 1x2 header / 2-line text component; no state graph is involved")
+              "text_convert matrix of a 2x2 body / 1x2 header / 2-line text component, every row-flag vector on a page_by-segmented body; "
+              "no state graph is involved")
 LEVEL_NOTE = ("trusted: mc/rtfreader lexer (used for both sides), data/latex_to_unicode.json as the specification of 'supported command', "
               "the documented per-component defaults; strings longer than the bound and characters outside the alphabet are not covered")
 
@@ -409,6 +410,8 @@ def eval_case(case: dict) -> dict:
         return eval_component(case, acc)
     if case["layer"] == "matrix":
         return eval_matrix(case, acc)
+    if case["layer"] == "segmented":
+        return eval_segmented(case, acc)
     raise ValueError(case["layer"])
 
 
@@ -547,6 +550,65 @@ def eval_matrix(case, acc):
     return {"viol": acc.viol(), "nt": True, "cnt": acc.cnt}
 
 
+SEG_PROBES = ("\\alpha^2", "\\mathbb{R}_i")
+
+
+def compositions(n: int):
+    """all ordered partitions of n rows into consecutive page_by groups"""
+    if n == 0:
+        yield []
+        return
+    for first in range(1, n + 1):
+        for rest in compositions(n - first):
+            yield [first] + rest
+
+
+def eval_segmented(case, acc):
+    """per-cell text_convert given as a full nrow x ncol matrix or as a per-row column vector, on a body that page_by
+    (new_page=False) renders in several segments - mid-page spanning rows, and across pages when nrow is small.
+    A cell is converted iff its own flag is True."""
+    import polars as pl
+    import rtflite as rtf
+
+    groups, nrow, shape = case["groups"], case["nrow"], case["shape"]
+    n = sum(groups)
+    g = [f"G{k}" for k, size in enumerate(groups) for _ in range(size)]
+    for v in range(case["lo"], case["hi"]):
+        f = [bool(v >> i & 1) for i in range(n)]
+        if shape == "rowvec":
+            tc = [[x] for x in f]
+            want = [[x, x] for x in f]
+        else:  # full matrix over all four columns (tag, a, b, page_by column); b carries the complement of a
+            tc = [[True, x, not x, True] for x in f]
+            want = [[x, not x] for x in f]
+        what = f"segmented groups={groups} nrow={nrow} {shape} flags={''.join('1' if x else '0' for x in f)}"
+        try:
+            # the page_by column is the last one, so the data columns keep their index whether or not attributes are sliced
+            df = pl.DataFrame({"t": [f"D{i}" for i in range(n)], "a": [SEG_PROBES[0]] * n, "b": [SEG_PROBES[1]] * n, "g": g})
+            doc = rtf.RTFDocument(df=df, rtf_page=rtf.RTFPage(nrow=nrow), rtf_column_header=[],
+                                  rtf_body=rtf.RTFBody(page_by=["g"], new_page=False, text_convert=tc))
+            d = parse(doc.rtf_encode())
+        except Exception as e:
+            acc.add(None, f"encode-raised-{type(e).__name__}", f"{what}: {type(e).__name__}: {e}"[:300])
+            continue
+        rows = [b for pg in d.pages for b in pg.blocks if b.kind == "row"]
+        data = [r for r in rows if len(r.cells) == 3 and re.fullmatch(r"D\d+", r.cells[0].text or "")]
+        heads = [r for r in rows if len(r.cells) == 1]
+        if [r.cells[0].text for r in data] != [f"D{i}" for i in range(n)] or len(data) + len(heads) != len(rows):
+            acc.add(None, "structure-segmented", f"{what}: rows {[r.texts for r in rows]!r}"[:400])
+            continue
+        acc.count("segmented-documents")
+        acc.count(f"segmented-pages={'1' if len(d.pages) == 1 else '2+'}")
+        if len(heads) > 1:
+            acc.count("segmented-documents-with-mid-body-heading")
+        for i in range(n):
+            for j in range(2):
+                acc.check(f"segmented-{shape}-{'onepage' if nrow > 1000 else 'paged'}-col{j}", SEG_PROBES[j], want[i][j],
+                          events_plain(data[i].cells[1 + j].events))
+    acc.count("segmented-cases")
+    return {"viol": acc.viol(), "nt": True, "cnt": acc.cnt}
+
+
 # --------------------------------------------------------------------------- enumeration
 
 
@@ -591,7 +653,10 @@ def plan(run):
                 f"{len(FILLSETS)} selected by the seed, thorough = all) x conversion on/off, one body cell per string; "
                 f"(b) every distinct concatenation of <= {maxlen} tokens of the {len(TOKENS)}-token alphabet x on/off; "
                 f"(c) {len(COMPONENT_DEFAULT)} component kinds x text_convert {{default, True, False}} x {len(PROBES)} probe strings, and every 0/1 "
-                "text_convert matrix of a 2x2 body, a 1x2 header row and 2-line title/subline/page header/page footer. "
+                "text_convert matrix of a 2x2 body, a 1x2 header row and 2-line title/subline/page header/page footer; "
+                "(d) body rendered in segments: page_by with new_page=False, every composition of the rows into groups (quick: 6 compositions of 5 rows; "
+                "thorough: all 64 of 7 rows) x nrow {one page, 5} x text_convert as full matrix / per-row column vector x every 0/1 row-flag vector - "
+                "a cell is converted iff its own flag is set. "
                 "a case = one packed document (a,b) or one component setting (c); non-trivial = contains a conversion token; "
                 "results are per string (counters strings / agree / known:*)")
     run.assumptions = [
@@ -617,6 +682,18 @@ def plan(run):
     for comp in ("colheader", "title", "subline", "page_header", "page_footer"):
         cases += [{"layer": "matrix", "component": comp, "bits": list(b)} for b in itertools.product((0, 1), repeat=2)]
     run.layer("per-cell-text_convert-matrices", fn, cases, chunk=1, total=len(cases))
+    # per-cell flags on a body rendered in segments (page_by, new_page=False), one page and several pages
+    if quick:
+        nseg, comps = 5, [[2, 3], [1, 2, 2], [2, 1, 2], [3, 2], [1, 1, 1, 1, 1], [5]]
+    else:
+        nseg, comps = 7, list(compositions(7))
+    cases = [{"layer": "segmented", "groups": c, "nrow": nrow, "shape": shape, "lo": lo, "hi": min(lo + 32, 2 ** nseg)}
+             for c in comps for nrow in (1000000, 5) for shape in ("matrix", "rowvec") for lo in range(0, 2 ** nseg, 32)]
+    run.layer("segmented-body-text_convert-matrices", fn, cases, chunk=1, total=len(cases))
+    done = all(l["completed"] for l in run.layers)
+    for need in ("segmented-pages=1", "segmented-pages=2+", "segmented-documents-with-mid-body-heading"):
+        if done and not run.viol and not run.cnt.get(need):
+            run.harness_errors.append({"layer": "vacuity", "case": None, "error": f"segmented layer produced no document counted as {need}"})
     # accounting / vacuity
     exp_strings = ncmd * len(TEMPLATES) * 2 * len(fills) + nts * 2
     done = all(l["completed"] for l in run.layers)
